@@ -39,6 +39,7 @@ func Main(args []string) int {
 	label := args[0]
 	var salt, failIf, sleepIf, omit, omitIf, touch, rm, rmIf string
 	fail, sleepMs, sleepAfterMs := 0, 0, 0
+	dangle := false
 	for i := 1; i < len(args); i++ {
 		next := func() string {
 			i++
@@ -62,6 +63,8 @@ func Main(args []string) int {
 			sleepIf = next()
 		case "--omit":
 			omit = next()
+		case "--dangle":
+			dangle = true
 		case "--omitif":
 			omitIf = next()
 		case "--touch":
@@ -132,12 +135,20 @@ func Main(args []string) int {
 		// leave every declared output missing
 		for _, o := range t.AllOuts() {
 			_ = os.RemoveAll(spec.OutAbs(root, t.Pkg, o.Path))
+			if dangle {
+				_ = os.MkdirAll(filepath.Dir(spec.OutAbs(root, t.Pkg, o.Path)), 0755)
+				_ = os.Symlink("does-not-exist-"+nonce, spec.OutAbs(root, t.Pkg, o.Path))
+			}
 		}
 	} else {
 		outs := spec.Produce(t, in, dep)
 		for _, o := range t.AllOuts() {
 			if o.Path == omit {
 				_ = os.RemoveAll(spec.OutAbs(root, t.Pkg, o.Path))
+				if dangle {
+					_ = os.MkdirAll(filepath.Dir(spec.OutAbs(root, t.Pkg, o.Path)), 0755)
+					_ = os.Symlink("does-not-exist-"+nonce, spec.OutAbs(root, t.Pkg, o.Path))
+				}
 				continue
 			}
 			// two ways real commands write: replace the output (unlink + create) or overwrite
